@@ -708,6 +708,11 @@ theorem runSim_fuel_sufficient {cfg : Cfg} (hR : 0 < cfg.rule) (hH : 0 < cfg.hyd
 
 example : ¬ NothingLeft cfgEx 0 ∧ ¬ NothingLeft cfgEx 7200 ∧ NothingLeft cfgEx 18000 := by decide
 
+/-- the hypothesis `NodupKeys vals` of the run-level theorems holds of every initial state built by writing values
+key by key (`init` of the driver, `_user_status` etc. of a model): no hypothesis is left to be checked per case -/
+theorem initial_values_nodup (as : List Action) : NodupKeys (runActions [] as) :=
+  NodupKeys.runActions (by unfold NodupKeys; simp) as
+
 /-- **(v) `value_persists`**: a key written by no control due in this pass and by no rule keeps its value -/
 theorem value_persists (cfg : Cfg) (first : Bool) (s : St) (k : Nat)
     (hd : ∀ d ∈ presolveDue cfg first s, d.writes k = none) (hr : ∀ c ∈ cfg.rules, c.silentOn k) :
